@@ -58,14 +58,14 @@ func ValidCorpus(r *mon.Rand, n int, scramble int) []CorpusItem {
 			ap = &a
 		}
 		lo := LayerOpts{Alg: ap, MaxProt: 4, MaxUnprot: 3, ScramblePct: scramble}
-		payload := r.Bytes(mon.Pick(r, 0, 1, 5, 23, 24, 40))
+		payload := r.Bytes(mon.Pick(r, 0, 1, 5, 23, 24, 40, 40, 4096, 5000))
 		if payload == nil {
 			payload = []byte{}
 		}
 		if r.Intn(6) == 0 {
 			payload = nil
 		}
-		sig := func() []byte { return r.Bytes(mon.Pick(r, 1, 8, 64, 96, 132)) }
+		sig := func() []byte { return r.Bytes(mon.Pick(r, 1, 8, 64, 96, 132, 132, 512, 4200)) }
 		switch i % 6 {
 		case 0, 1:
 			l := RandLayer(r, lo)
